@@ -183,6 +183,21 @@ impl From<u8> for Fr {
     #[verifier::external_body]
     fn from(v: u8) -> (r: Fr) ensures r.view() == v as nat { unimplemented!() }
 }
+impl From<u16> for Fr {
+    #[verifier::external_body]
+    fn from(v: u16) -> (r: Fr) ensures r.view() == v as nat { unimplemented!() }
+}
+impl From<u32> for Fr {
+    #[verifier::external_body]
+    fn from(v: u32) -> (r: Fr) ensures r.view() == v as nat { unimplemented!() }
+}
+// ASSUMED(dep): Ord::min / Ord::max on Fr follow the order of the canonical integers (modelled as inherent methods)
+impl Fr {
+    #[verifier::external_body]
+    pub fn min(self, other: Fr) -> (r: Fr) ensures r == (if self.view() <= other.view() { self } else { other }) { unimplemented!() }
+    #[verifier::external_body]
+    pub fn max(self, other: Fr) -> (r: Fr) ensures r == (if self.view() >= other.view() { self } else { other }) { unimplemented!() }
+}
 // (From<u64> for Fr: prelude_field.rs)
 
 // ---- Poseidon ----------------------------------------------------------------------------------
